@@ -59,7 +59,9 @@ def get_expanded_statements(prog: xir.Program) -> Sequence[xir.Statement]:
                 for stmt in sub_statements:
                     wires = tuple(wire_mapping[w] for w in stmt.wires)
                     params = [param_mapping[w] for w in stmt.params]
-                    flattened_statements.append(xir.Statement(stmt.name, params, wires))
+                    flattened_statements.append(
+                        xir.Statement(stmt.name, params, wires, inverse=stmt.is_inverse)
+                    )
             else:
                 flattened_statements.append(op)
         return flattened_statements
